@@ -294,18 +294,19 @@ theorem parseFormat_sat (fmt : List Nat) (p : Nat) (h : p < fmt.length) (hc : rd
   simp only [hc]
   exact parseLoop_sat fmt p {} h
 
-/-- what a formatter array may do: output, or an assertion in the class `A spec` -/
-def FormattersOk (n : Nat) (fs : Formatters) (A : FormatSpec → String → Prop) : Prop :=
-  ∀ id spec, id < n → Sat (fun _ => True) (fun _ => False) (A spec) (fs id spec)
+/-- what a formatter array may do: output, an exception in the class `E` (wide text that the
+    default validation rejects), or an assertion in the class `A spec` -/
+def FormattersOk (n : Nat) (fs : Formatters) (E : Exc → Prop) (A : FormatSpec → String → Prop) : Prop :=
+  ∀ id spec, id < n → Sat (fun _ => True) E (A spec) (fs id spec)
 
 /-- an assertion of the whole call is the assertion of one formatter, applied to a spec that
     `parse_format` produced from this format string -/
 def FieldAssert (fmt : List Nat) (A : FormatSpec → String → Prop) (w : String) : Prop :=
   ∃ p spec p', parseFormat fmt p = .ok (spec, p') ∧ A spec w
 
-theorem applyLoop_sat (fmt : List Nat) (n : Nat) (fs : Formatters) (A : FormatSpec → String → Prop) (hfs : FormattersOk n fs A)
-    (pos index : Nat) (h : pos ≤ fmt.length) :
-    Sat (fun _ => True) (fun e => e = .badFormat ∨ e = .outOfRange) (FieldAssert fmt A) (applyLoop fmt n fs pos index) := by
+theorem applyLoop_sat (fmt : List Nat) (n : Nat) (fs : Formatters) (E : Exc → Prop) (A : FormatSpec → String → Prop)
+    (hfs : FormattersOk n fs E A) (pos index : Nat) (h : pos ≤ fmt.length) :
+    Sat (fun _ => True) (fun e => e = .badFormat ∨ e = .outOfRange ∨ E e) (FieldAssert fmt A) (applyLoop fmt n fs pos index) := by
   induction hm : fmt.length + 1 - pos using Nat.strongRecOn generalizing pos index with
   | _ m ih =>
     rw [applyLoop]
@@ -326,9 +327,9 @@ theorem applyLoop_sat (fmt : List Nat) (n : Nat) (fs : Formatters) (A : FormatSp
         simp only at h4 h5
         simp only [Outcome.bind]
         by_cases hid : (formatterId spec index).1 ≥ n
-        · simp only [hid, if_true, Sat]; exact Or.inr trivial
+        · simp only [hid, if_true, Sat]; exact Or.inr (Or.inl trivial)
         · simp only [hid, if_false]
-          refine Sat.bind (Sat.mono (hfs _ spec (by omega)) (fun _ => id) (fun _ => False.elim)
+          refine Sat.bind (Sat.mono (hfs _ spec (by omega)) (fun _ => id) (fun e he => Or.inr (Or.inr he))
             (fun w hw => ⟨p, spec, p', hpe, hw⟩)) ?_
           intro ev' _
           have hg : pos < p' ∧ p' ≤ fmt.length := ⟨by omega, h5⟩
@@ -342,8 +343,9 @@ theorem applyLoop_sat (fmt : List Nat) (n : Nat) (fs : Formatters) (A : FormatSp
       | oob => rw [hpe] at hpf; exact hpf.elim
       | stuck => rw [hpe] at hpf; exact hpf.elim
 
-theorem applyFormat_sat (fmt : List Nat) (n : Nat) (fs : Formatters) (A : FormatSpec → String → Prop) (hfs : FormattersOk n fs A) :
-    Sat (fun _ => True) (fun e => e = .badFormat ∨ e = .outOfRange) (FieldAssert fmt A) (applyFormat fmt n fs) := by
+theorem applyFormat_sat (fmt : List Nat) (n : Nat) (fs : Formatters) (E : Exc → Prop) (A : FormatSpec → String → Prop)
+    (hfs : FormattersOk n fs E A) :
+    Sat (fun _ => True) (fun e => e = .badFormat ∨ e = .outOfRange ∨ E e) (FieldAssert fmt A) (applyFormat fmt n fs) := by
   unfold applyFormat
   by_cases hn : n = 0
   · simp only [hn, if_true]
@@ -351,6 +353,6 @@ theorem applyFormat_sat (fmt : List Nat) (n : Nat) (fs : Formatters) (A : Format
     intro ⟨ev, p, more⟩ _
     cases more <;> simp [Sat]
   · simp only [hn, if_false]
-    exact applyLoop_sat fmt n fs A hfs 0 0 (Nat.zero_le _)
+    exact applyLoop_sat fmt n fs E A hfs 0 0 (Nat.zero_le _)
 
 end StVerif.Lemmas.Fmt
